@@ -9,11 +9,18 @@ sys.path.insert(0, 'lib')
 import vlib
 ok, log = vlib.build_coq()
 if not ok:
-    print(log[-5000:]); sys.exit(1)
+    # make -k has built everything that builds; a file that does not is reported by the check of the property it belongs to
+    print(log[-3000:]); print("WARNING: some Coq files did not build (see above)")
 for P in vlib.extract_props():
-    vlib.build_mdriver(P)
+    try:
+        vlib.build_mdriver(P)
+    except vlib.BuildError as e:
+        print("WARNING:", e)
 clib = vlib.build_clib()
 for h in sorted(glob.glob('harness/*.c')):
-    vlib.build_cdriver(os.path.basename(h)[:-2], clib)
+    try:
+        vlib.build_cdriver(os.path.basename(h)[:-2], clib)
+    except vlib.BuildError as e:
+        print("WARNING:", e)
 print("setup ok")
 PY
